@@ -142,6 +142,8 @@ type built struct {
 	runs      []shaping.Output // pristine input runs (never handed to the wrapper)
 	cfg       shaping.WrapConfig
 	truncFace *font.Face // identity of the truncator run (nil for the zero-value truncator)
+	// spacing[g] = letter spacing really added before and after the glyph g of runs (from geometry)
+	spacing   map[*shaping.Glyph][2]fixed.Int26_6
 	faceNames map[*font.Face]string
 }
 
@@ -277,7 +279,34 @@ func build(c *Case) (*built, error) {
 		}
 	}
 	if c.WordSpacing != 0 || c.LetterSpacing != 0 {
+		// The reference for what letter spacing really added is the glyph geometry, not the
+		// library's bookkeeping fields: a clone gets the word spacing only, the real runs go
+		// through AddSpacing as users do, and the difference is what was added before (offset
+		// shift) and after (rest of the advance increase) each glyph.
+		var ref []shaping.Output
+		if c.LetterSpacing != 0 {
+			ref = cloneRuns(b.runs)
+			if c.WordSpacing != 0 {
+				for i := range ref {
+					ref[i].AddWordSpacing(c.Text, fixed.Int26_6(c.WordSpacing))
+				}
+			}
+		}
 		shaping.AddSpacing(b.runs, c.Text, fixed.Int26_6(c.WordSpacing), fixed.Int26_6(c.LetterSpacing))
+		if ref != nil {
+			b.spacing = map[*shaping.Glyph][2]fixed.Int26_6{}
+			for ri := range b.runs {
+				vertical := b.runs[ri].Direction.IsVertical()
+				for gi := range b.runs[ri].Glyphs {
+					g, r := &b.runs[ri].Glyphs[gi], &ref[ri].Glyphs[gi]
+					before := gOff(g, vertical) - gOff(r, vertical)
+					after := gAdv(g, vertical) - gAdv(r, vertical) - before
+					if before != 0 || after != 0 {
+						b.spacing[g] = [2]fixed.Int26_6{before, after}
+					}
+				}
+			}
+		}
 	}
 	b.cfg = shaping.WrapConfig{
 		Direction:                     paraDir,
@@ -369,6 +398,17 @@ func startLS(g *shaping.Glyph) fixed.Int26_6 {
 func endLS(g *shaping.Glyph) fixed.Int26_6 {
 	return fixed.Int26_6(reflect.ValueOf(g).Elem().Field(fEndLS).Int())
 }
+
+func gOff(g *shaping.Glyph, vertical bool) fixed.Int26_6 {
+	if vertical {
+		return g.YOffset
+	}
+	return g.XOffset
+}
+
+// trueStartLS / trueEndLS: the letter spacing actually present before / after an input glyph.
+func (b *built) trueStartLS(g *shaping.Glyph) fixed.Int26_6 { return b.spacing[g][0] }
+func (b *built) trueEndLS(g *shaping.Glyph) fixed.Int26_6   { return b.spacing[g][1] }
 
 func gAdv(g *shaping.Glyph, vertical bool) fixed.Int26_6 {
 	if vertical {
